@@ -224,5 +224,83 @@ theorem verify_honest_iff [DecidableEq F] (g g2 τ : F) (k k2 : Nat) (p : List F
   · intro h; linear_combination (-1 : F) * h + (g * g2) * hq
   · intro h; linear_combination (-1 : F) * h + (g * g2) * hq
 
+theorem verify_wf' [DecidableEq F] (g g2 τ : F) (a b : Nat) (ha : 1 ≤ a) (hb : 2 ≤ b) (c α v π : F) :
+    verify ⟨PCV.powers g τ a, PCV.powers g2 τ b⟩ c α v π
+      = .ok (decide ((c - g * v) * g2 = π * ((τ - α) * g2))) := by
+  obtain ⟨k, rfl⟩ := Nat.exists_eq_add_of_le' ha
+  obtain ⟨k2, rfl⟩ := Nat.exists_eq_add_of_le' hb
+  exact verify_wf g g2 τ k k2 c α v π
+
+/-- the verifier key derived from the stream key of a key made by `new` -/
+theorem vk_ofSpace_new (g g2 τ : F) (D m : Nat) :
+    VK.ofSpace (CKS.ofTime (CK.new g g2 τ D m))
+      = .ok ⟨PCV.powers g τ (min (max (min (D + 1) (m + 1) - 1) 1) (D + 1)),
+             PCV.powers g2 τ (min (D + 1) (m + 1))⟩ := by
+  unfold VK.ofSpace CKS.ofTime CK.new
+  simp only [powers_length, List.length_reverse]
+  rw [if_neg (by omega)]
+  have h := reverse_drop_sub (PCV.powers g τ (D + 1)) (min (max (min (D + 1) (m + 1) - 1) 1) (D + 1))
+    (by rw [powers_length]; omega)
+  rw [powers_length] at h
+  rw [h, List.reverse_reverse, powers_take]
+  congr 3
+  omega
+
+/-- `verify` on an honest opening with the value shifted by `δ`, under any verifier key
+`(g·τⁱ)_{i<a}, (g2·τⁱ)_{i<b}` with `a ≥ 1`, `b ≥ 2`. -/
+theorem verify_honest_iff' [DecidableEq F] (g g2 τ : F) (a b : Nat) (ha : 1 ≤ a) (hb : 2 ≤ b)
+    (p : List F) (α δ : F) :
+    verify ⟨PCV.powers g τ a, PCV.powers g2 τ b⟩ (g * evalPoly p τ) α
+        (evalPoly p α + δ) (g * evalPoly (divLin p α).1 τ) = .ok true
+      ↔ g * g2 * δ = 0 := by
+  obtain ⟨k, rfl⟩ := Nat.exists_eq_add_of_le' ha
+  obtain ⟨k2, rfl⟩ := Nat.exists_eq_add_of_le' hb
+  exact verify_honest_iff g g2 τ k k2 p α δ
+
+theorem verify_iff [DecidableEq F] (g g2 τ : F) (D m : Nat) (hD : 1 ≤ D) (hm : 1 ≤ m) (p : List F)
+    (α δ : F) (hp : p.length ≤ D + 1) (vk : VK F) (hvk : VK.ofTime (CK.new g g2 τ D m) = .ok vk) :
+    verify vk (Time.commit (CK.new g g2 τ D m) p) α ((Time.open (CK.new g g2 τ D m) p α).1 + δ)
+      (Time.open (CK.new g g2 τ D m) p α).2 = .ok true ↔ g * g2 * δ = 0 := by
+  rw [vk_ofTime_new] at hvk
+  injection hvk with hvk
+  subst hvk
+  rw [time_commit_new _ _ _ _ _ _ hp, time_open_new _ _ _ _ _ _ _ hp]
+  exact verify_honest_iff' g g2 τ _ _ (by omega) (by omega) p α δ
+
+theorem verify_stream_key_iff [DecidableEq F] (g g2 τ : F) (D m : Nat) (hD : 1 ≤ D) (hm : 1 ≤ m)
+    (p : List F) (α δ : F) (hp : p.length ≤ D + 1) (vk : VK F)
+    (hvk : VK.ofSpace (CKS.ofTime (CK.new g g2 τ D m)) = .ok vk) :
+    verify vk (Time.commit (CK.new g g2 τ D m) p) α ((Time.open (CK.new g g2 τ D m) p α).1 + δ)
+      (Time.open (CK.new g g2 τ D m) p α).2 = .ok true ↔ g * g2 * δ = 0 := by
+  rw [vk_ofSpace_new] at hvk
+  injection hvk with hvk
+  subst hvk
+  rw [time_commit_new _ _ _ _ _ _ hp, time_open_new _ _ _ _ _ _ _ hp]
+  exact verify_honest_iff' g g2 τ _ _ (by omega) (by omega) p α δ
+
+theorem verify_open_complete [DecidableEq F] (g g2 τ : F) (D m : Nat) (hD : 1 ≤ D) (hm : 1 ≤ m)
+    (p : List F) (α : F) (hp : p.length ≤ D + 1) (vk : VK F)
+    (hvk : VK.ofTime (CK.new g g2 τ D m) = .ok vk) :
+    verify vk (Time.commit (CK.new g g2 τ D m) p) α (Time.open (CK.new g g2 τ D m) p α).1
+      (Time.open (CK.new g g2 τ D m) p α).2 = .ok true := by
+  have h := (verify_iff g g2 τ D m hD hm p α 0 hp vk hvk).2 (by ring)
+  simpa using h
+
+/-- `verify` never aborts on such a key: it answers `true` or `false` -/
+theorem wrong_value_rejected [DecidableEq F] (g g2 τ : F) (D m : Nat) (hD : 1 ≤ D) (hm : 1 ≤ m)
+    (p : List F) (α δ : F) (hp : p.length ≤ D + 1) (vk : VK F)
+    (hvk : VK.ofTime (CK.new g g2 τ D m) = .ok vk) (hg : g ≠ 0) (hg2 : g2 ≠ 0) (hδ : δ ≠ 0) :
+    verify vk (Time.commit (CK.new g g2 τ D m) p) α ((Time.open (CK.new g g2 τ D m) p α).1 + δ)
+      (Time.open (CK.new g g2 τ D m) p α).2 = .ok false := by
+  have hiff := verify_iff g g2 τ D m hD hm p α δ hp vk hvk
+  have hne : ¬ (g * g2 * δ = 0) := mul_ne_zero (mul_ne_zero hg hg2) hδ
+  rw [vk_ofTime_new] at hvk
+  injection hvk with hvk
+  subst hvk
+  rw [verify_wf' g g2 τ _ _ (by omega) (by omega)] at hiff ⊢
+  simp only [Except.ok.injEq, decide_eq_true_eq] at hiff
+  simp only [Except.ok.injEq, decide_eq_false_iff_not]
+  exact fun h => hne (hiff.1 h)
+
 end SKZG
 end PCV
